@@ -22,6 +22,7 @@ starting a line with `//@`:
 
   //@struct <file> <Name>      real struct/enum definition, attributes and doc comments dropped
   //@const <file> <NAME>       real const item
+  //@fields <file> <Struct> f1 f2 ...   the real struct reduced to the named fields (real types)
 
 `prove`: signature and body are copied byte for byte; only the inserted ghost text (wrapped in
 /*+vx*/ ... /*-vx*/ markers) and the naming of the return value `-> T` => `-> (ret: T)` are added.
@@ -463,6 +464,24 @@ def generate(template_path, twin=False):
             out.append(cleaned)
             report["items"].append({"file": words[1], "item": words[2], "role": kind,
                                     "sha256": hashlib.sha256(cleaned.encode()).hexdigest(),
+                                    "line": s.text.count("\n", 0, a) + 1})
+            i += 1
+            continue
+        if kind == "fields":
+            # //@fields <file> <Struct> f1 f2 ...: the real struct reduced to the named fields, each with
+            # the field's real declared type (checked against the struct text in /repo)
+            s = src(words[1])
+            a, b = s.find_typedef(words[2])
+            body = strip_attrs_and_docs(s.text[a:b])
+            decls = []
+            for fname in words[3:]:
+                mf = re.search(r"(?m)^\s*(?:pub(?:\([^)]*\))?\s+)?%s\s*:\s*(.+?),\s*$" % re.escape(fname), body)
+                if not mf:
+                    raise AnchorLost("field %s.%s not found in %s" % (words[2], fname, words[1]))
+                decls.append("    pub %s: %s," % (fname, " ".join(mf.group(1).split())))
+            out.append("pub struct %s {\n%s\n}" % (words[2], "\n".join(decls)))
+            report["items"].append({"file": words[1], "item": words[2], "role": "struct (fields %s only)" % ",".join(words[3:]),
+                                    "sha256": hashlib.sha256("\n".join(decls).encode()).hexdigest(),
                                     "line": s.text.count("\n", 0, a) + 1})
             i += 1
             continue
